@@ -144,10 +144,12 @@ var _ = pr.AutoF
 //@   props C12
 //@   modifies anything
 //@   let brk = tmp.InitialNextPage.Break
-//@   let ltr = old(rootBox.Box().Style).GetDirection() == "ltr"
-//@   let want = ite(brk == "left" || brk == "right", brk, ite(brk == "recto", ite(ltr, "right", "left"), ite(brk == "verso", ite(ltr, "left", "right"), "")))
-//@   call makePage#1 assert arg2.Side == ite(tmp.RightPage, "right", "left")
-//@   call makePage#1 assert arg2.First == (index == 0) && arg2.Index == index && arg4 == index + 1
-//@   call makePage#1 assert arg2.Blank == ((want != "" && want != arg2.Side) || (old(len(context.reportedFootnotes)) != 0 && tmp.InitialResumeAt == nil))
-//@   call makePage#1 assert (arg2.Blank ==> arg2.Name == "") && (!arg2.Blank ==> arg2.Name == string(tmp.InitialNextPage.Page))
+//@   let ltr = rootBox.Box().Style.GetDirection() == "ltr"
+//@   let wantRight = brk == "right" || (brk == "recto" && ltr) || (brk == "verso" && !ltr)
+//@   let wantLeft = brk == "left" || (brk == "recto" && !ltr) || (brk == "verso" && ltr)
+//@   call SetPageComputedStylesT#1 assert arg1.Side == ite(tmp.RightPage, "right", "left")
+//@   call SetPageComputedStylesT#1 assert arg1.First == (index == 0) && arg1.Index == index
+//@   call SetPageComputedStylesT#1 assert arg1.Blank == ((wantLeft && tmp.RightPage) || (wantRight && !tmp.RightPage) || (len(context.reportedFootnotes) != 0 && tmp.InitialResumeAt == nil))
+//@   call SetPageComputedStylesT#1 assert (arg1.Blank ==> arg1.Name == "") && (!arg1.Blank ==> arg1.Name == string(tmp.InitialNextPage.Page))
+//@   call makePage#1 assert arg2 == pageType && arg4 == index + 1
 //@   call makePage#1 assert arg3 == tmp.InitialResumeAt
